@@ -1,14 +1,16 @@
 CHECK = {
     "lean_module": "MidnightZK.Props.C08",
     "harness": "h-c08",
-    "translators": ["c08_params"],
+    "translators": ["c08_params", "c08_chip"],
     "level": "proof",
     "technique": "Lean 4 proofs over an executable model + generated parameter tables + structural correspondence on real "
                  "circuits, real keys and real proofs (KZG, ParamsKZG::unsafe_setup)",
     "rule": "one case per (value, entry point) pair: the real off-circuit encoder on the value, and the real circuit "
             "exposing it (zk_stdlib Relation / verifier-gadget circuit) run through the mock prover; one case per "
             "(relation, raw instance vector, proof origin) triple for the verifier's count check; distinctness by "
-            "hash of the request line (type, entry point, value / steps, vectors)",
+            "hash of the request line (type, entry point, value / steps, vectors); one case per (sequence of "
+            "(handle, column, value) steps) for the multi-handle circuits; one case per relation for the real proofs "
+            "with a committed instance",
     "explanation": "Lean theorems: every encoder (bit, byte, native, emulated field, foreign point with identity flag, "
                    "Jubjub point/scalar, BigUint(nb), vk identity, MSM, accumulator, IR bytes) is injective under the "
                    "type's well-formedness, has a type-determined length, the in-circuit exposure of an honestly "
@@ -36,7 +38,39 @@ CHECK = {
                    "with the honest proof AND with a proof produced by a prover running the protocol on that very "
                    "vector, through verify, batch_verify and the PLONK verifier without the zk_stdlib check: only "
                    "the exact vector is accepted by both entry points, although the PLONK layer alone accepts the "
-                   "zero-truncated and zero-extended ones",
+                   "zero-truncated and zero-extended ones. Round 5 (several handles, committed column): the model "
+                   "now has the Rc structure of NativeChip explicitly (a store of counter cells, handles holding "
+                   "references; derive(Clone) = same cells): counters_shared_across_handles / counters_shared_general "
+                   "(exposing any interleaving of items through any handles that reference one pair of cells is the "
+                   "handle-free two-counter machine on the sequence of items: rows are a function of the sequence "
+                   "only), handles_rows_consecutive (rows 0,1,2,.. on each column, the two columns counting "
+                   "independently), handle_step_agrees + handles_instance_satisfies_iff ((committed, plain) satisfies "
+                   "both columns' copy constraints iff it is (concatenated committed encoders, concatenated plain "
+                   "encoders)), and the witness per_handle_counters_collide / per_handle_first_rows_collide (one "
+                   "committed counter per clone, as seeded defect C08-4 has it: two committed cells exposed through "
+                   "two different handles both get row 0; the circuit of the seed's demo rejects the honest "
+                   "vector). Tie: a circuit built like ZkStdLib::new / the IVC example (native chip, two native "
+                   "gadgets on clones, foreign BLS12-381 ECC chip holding its own gadget clone, its base-field chip, "
+                   "VerifierGadget) exposes sequences of (handle, column, value) steps - natives, bits, bytes on the "
+                   "plain and the COMMITTED column through chip / gadget / second gadget / the clone inside the ECC "
+                   "chip, points, emulated field elements and accumulators (plain and with committed scalars) in "
+                   "between: the bound rows of BOTH instance columns read off the mock prover must be the model's "
+                   "(exposeVia codeEnv: the handle environment is derived from the shape of struct NativeChip "
+                   "regenerated by translator c08_chip - derive list, field types, which counter and column each "
+                   "exposure function uses; code_env_shared, code_handles_threaded, relation_handles_irrelevant, "
+                   "handles_edits_rejected), MockProver with (encode committed, encode plain) must pass and every "
+                   "single-position edit of either column must fail. Real keygen/prove/verify with "
+                   "committed_instance = Some(commit_to_instances(format_committed_instances(witness))) as the "
+                   "zk_stdlib examples do: accepted; None, batch_verify (no committed instances), a commitment to "
+                   "every single-position edit of the committed vector, an edited / truncated / extended plain "
+                   "vector: rejected (verify_committed_ok_iff); the commitment ignores trailing zeros "
+                   "(commitKey_append_zeros, observed: pad0=ok). Fixed-base names: fixed_base_names / "
+                   "fixed_commitment_name / perm_commitment_name and the BTreeMap key order are mirrored and "
+                   "compared with the running code (names lines, up to 101 commitments); assign_fixed_consistent: "
+                   "AssignedMsm::assign (values in key order, names sorted, zipped) rebuilds the off-circuit map for "
+                   "any asymmetric order; assign_without_sort_permutes is the witness of seeded defect C08-3; "
+                   "accumulators with the library's own 14 and 24 canonical (unsorted) names are exposed in the "
+                   "quick tier",
     # Every `Instantiable` / `PublicInputInstructions` / `CommittedInstanceInstructions` impl of circuits/, zk_stdlib
     # and the IR value types of zkir (publish.rs).
     # columns: type | impls (file:line at the pinned commit) | encode_injective | exposure theorem | trace tie (paths)
@@ -52,6 +86,9 @@ CHECK = {
         "AssignedVk | verifier/mod.rs:87, verifier_gadget.rs:88 | assumption (collision resistance of transcript_repr); two keys compared | cells = [repr] (model), expose_binds | assign_vk_as_public_input on two real keys",
         "AssignedMsm | verifier/msm.rs:210 (+ constrain_as_public_input, with_committed_scalars) | encode_injective_msm (fixed shape) | expose_accumulator_agrees | off-circuit on many shapes; in-circuit as part of accumulators",
         "AssignedAccumulator | verifier/accumulator.rs:195, verifier_gadget.rs:121 | encode_injective_accumulator, accumulator_committed_split | expose_accumulator_agrees (plain and committed scalars) | VerifierGadget circuits, plain and committed column",
+        "NativeChip clones (Rc counters) | native_chip.rs:115 struct NativeChip, :140 new, derive(Clone); native_gadget.rs:547, verifier/types.rs:152 | n/a | counters_shared_across_handles, handles_rows_consecutive, handles_instance_satisfies_iff, per_handle_counters_collide | handles.rs: chip, gadget, g2, eccsc (clone inside ForeignEccChip), ecc, ff, ver x plain/committed",
+        "committed instance at the verifier | zk_stdlib/src/lib.rs:1763 prove (format_committed_instances), :1795 verify (committed_instance), :1827 batch_verify; proofs prover.rs:36 commit_to_instances | n/a | verify_committed_ok_iff, commitKey_append_zeros | comrel.rs: real proofs, Some / None / batch / edited commitments / plain variants",
+        "fixed-base names | verifier/mod.rs:94, :99, :142; verifier/msm.rs:310 AssignedMsm::assign | n/a | assign_fixed_consistent, strLt_asymm, assign_without_sort_permutes | names lines (7 shapes), accumulators with 14 / 24 canonical names",
         "ZkStdLib (dispatch) | zk_stdlib/src/lib.rs:861, :892 | n/a | n/a | every case above goes through it",
         "IR values (Bool, Bytes, Native, BigUint, JubjubPoint, JubjubScalar) | zkir publish.rs: CircuitValue::as_public_input, publish_incircuit | encode_injective (Val.bytes etc.) | cells_eq_encode | ZKIR programs: loaded, constant, computed, converted values",
         "FakePoint<C> | aggregator/src/light_self_emulation.rs:39, :138 | NOT COVERED (test-only mock type of the aggregator, not in the property's anchors) | - | -",
@@ -64,21 +101,37 @@ CHECK = {
         "verify_ok_iff models the PLONK verifier as: accepts iff the transcripts absorb the same (length, values) and "
         "the zero-padded instance satisfies the copy constraints; the accepting direction is observed on every run "
         "(also without the zk_stdlib check), the rejecting direction is the soundness of the proof system (C01-C03)",
+        "verifyCommittedVerdict models commit_to_instances as an injective function of the zero-padded column "
+        "(binding of the commitment scheme); accepting direction observed on real proofs, rejecting direction = soundness "
+        "of the proof system",
+        "the handle model identifies a gadget with the NativeChip clone it holds; that every gadget of the library "
+        "reaches the instance columns only through such a clone is observed (bound rows of the real circuits), not proved",
     ],
     "assumptions": [
         "distinct verifying keys have distinct transcript_repr (collision resistance of the key hash)",
         "MSM/accumulator injectivity is for a fixed shape (number of terms, fixed-base names), which the circuit fixes",
     ],
     "level_text": "Kernel-checked Lean theorems about an executable model of every public-input encoder, of the "
-                  "in-circuit exposure with its instance-row counter and of the verifier's length checks, over "
+                  "in-circuit exposure with its two shared instance-row counters (plain and committed column, any number of chip "
+                  "handles) and of the verifier's length and committed-instance checks, over "
                   "parameter tables regenerated from the Rust sources; the model and the property's oracle are "
                   "checked against the real encoders, the real compiled circuits, real verifying keys and real "
-                  "proofs (verify and batch_verify) on every run",
+                  "proofs (verify with and without a committed instance, batch_verify) on every run",
     "level_note": "Trusted: Lean kernel, the translator, the correspondence harness and driver. Jubjub scalars: the "
                   "agreement theorem is an exact characterisation (bit vectors of at most 254 bits agree, longer ones "
                   "bind the encoding followed by zero rows and are miscounted): the recorded finding "
                   "jscalar-exposure:bits>252, proved with a concrete witness. The count theorems are tied to "
                   "zk_stdlib::verify / batch_verify by real proofs for every length variant; the correspondence is "
-                  "deliberately tight on the error class (InvalidInstances before any PLONK work)",
+                  "deliberately tight on the error class (InvalidInstances before any PLONK work). The committed "
+                  "column has no recorded count: a committed vector and the same vector followed by zeros are the "
+                  "same committed instance (proved and observed); that all clones of NativeChip share the counters is "
+                  "a theorem about the Rc model and is tied to the code by multi-handle circuits on both columns "
+                  "(seeded defect C08-4 is the counter-model of the witness lemma) and by the translator c08_chip "
+                  "(derive list, field types and the read-bind-increment shape of the two exposure functions of "
+                  "NativeChip, re-proved by code_env_shared; deliberately tight on that syntactic shape: rewriting "
+                  "`*offset += 1` differently makes the translator refuse the source). Not covered: handles that "
+                  "are cloned in the middle of a synthesis; committed exposure through ZkStdLib goes through one "
+                  "handle only (the library offers no other), so the real proofs with a committed instance "
+                  "exercise the verifier side, not the handle sharing",
     "timeout": {"quick": 900, "thorough": 3600, "search": 900},
 }
